@@ -2027,8 +2027,17 @@ func JsonObject(ctx context.Context, scope *ReferenceScope, fn parser.Function) 
 			return nil, err
 		}
 	} else {
+		// The arguments are fields when the function is called by its keyword; a call by the quoted name has plain values.
+		fields := make([]parser.QueryExpression, len(fn.Args))
+		for i, arg := range fn.Args {
+			if _, ok := arg.(parser.Field); ok {
+				fields[i] = arg
+			} else {
+				fields[i] = parser.Field{Object: arg}
+			}
+		}
 		selectClause := parser.SelectClause{
-			Fields: fn.Args,
+			Fields: fields,
 		}
 		if err := view.Select(ctx, scope, selectClause); err != nil {
 			return nil, err
